@@ -22,15 +22,19 @@ PRE = ("From Coq Require Import ZArith List. Import ListNotations.\n"
        "Local Open Scope Z_scope.\n")
 
 
-MAX_REPORTED = 8
+MAX_REPORTED = 4
 _suppressed = [0]
+_reported = {}
 
 
 def report(ctx, replay, summary, **kw):
-    """ctx.violation with a cap: the first MAX_REPORTED failing inputs are written out, the rest are counted."""
-    if len(ctx.violations) >= MAX_REPORTED:
+    """ctx.violation with a cap: per mode (bls, ps, pop, vrf, bits) the first MAX_REPORTED failing inputs are
+    written out, the rest are counted."""
+    mode = replay.get("mode", "?")
+    if _reported.get(mode, 0) >= MAX_REPORTED:
         _suppressed[0] += 1
         return
+    _reported[mode] = _reported.get(mode, 0) + 1
     ctx.violation(replay, summary, **kw)
 
 
@@ -343,9 +347,9 @@ def run(ctx):
     n_eval = 0
 
     # --- BLS (small and large signer sets) and PS: harness runs, then ONE sharded model evaluation
-    bls_small = run_mode(ctx, binp, ["bls", ctx.seed, 14 if q else 300]) or []
-    bls_big = run_mode(ctx, binp, ["bls", ctx.seed + 1000, 3 if q else 24, 1]) or []
-    ps_cases = run_mode(ctx, binp, ["ps", ctx.seed, 16 if q else 400]) or []
+    bls_small = run_mode(ctx, binp, ["bls", ctx.seed, 14 if q else 200]) or []
+    bls_big = run_mode(ctx, binp, ["bls", ctx.seed + 1000, 3 if q else 18, 1]) or []
+    ps_cases = run_mode(ctx, binp, ["ps", ctx.seed, 16 if q else 250]) or []
     bad = [cs for cs in ps_cases if not isinstance(cs["toy"].get("issued"), dict) or not isinstance(cs["toy"].get("blinded"), dict)]
     for cs in bad:
         ctx.violation({"mode": "ps", "seed": ctx.seed, "case": {k: cs[k] for k in ("n", "len", "std_gens")}, "toy": cs["toy"]}, "PS signing panicked")
